@@ -134,7 +134,9 @@ def gen(rng, tier):
         # names the bench syntax has no way to write (this library's Verilog reader keeps escaped identifiers such
         # as `\\sum(0) ` and `\\a,b ` verbatim): nothing but a refusal is right for them
         n = rng.choice(sorted(net["nodes"]))
-        net = G.rename(net, {n: rng.choice(("\\s(0)", "a,b", "p=q", "k#1", "x y", "\\bus[0] ", "f(", "g)"))})
+        net = G.rename(net, {n: rng.choice(("\\s(0)", "a,b", "p=q", "k#1", "x y", "\\bus[0] ", "f(", "g)",
+                                              # white space is more than blank and tab: the reader splits at every \\s character
+                                              "en\u00a0b", "w\u2003", "k\x1cq", "n\x85m", "t\tu", "r\u3000"))})
     return {"kind": "writer", "net": net, "peer": {"seed": rng.getrandbits(32)}}
 
 
